@@ -18,7 +18,7 @@ AX = ["i", "j", "k", "l"]
 
 # ------------------------------------------------------------------ generation
 def gen_case(rng, max_funcs=4, allow_internal=True, allow_reduce=True, allow_nomapspec=True,
-             allow_tuple=True, max_roots=3, allow_autogen=False, sizes=None, allow_bound=False):
+             allow_tuple=True, max_roots=3, allow_autogen=False, sizes=None, allow_bound=False, allow_renames=False):
     sizes = sizes or {a: rng.randint(1, 3) for a in AX}
     arrays = {}  # name -> tuple of axis names (fixed by producer)
     roots = {}
@@ -96,6 +96,11 @@ def gen_case(rng, max_funcs=4, allow_internal=True, allow_reduce=True, allow_nom
         })
         for o in outnames:
             arrays[o] = tuple(out_axes)
+    if allow_renames:
+        # the function's own parameter names differ from the names used in the pipeline / MapSpec (PipeFunc(renames=...))
+        for f in funcs:
+            if rng.random() < 0.5:
+                f["iparams"] = [f"a{k}" for k in range(len(f["params"]))]
     if allow_bound:
         # bound values on parameters that are delivered whole (a bound parameter may not appear in a MapSpec)
         for f in funcs:
@@ -152,7 +157,8 @@ def build_funcs(case, log=None, fault=None, tag=None, cache=None, extra=None):
 
     out = []
     for f in case["funcs"]:
-        fn = probes.make_probe(f["name"], f["params"], len(f["outs"]), log=log,
+        iparams = f.get("iparams") or f["params"]
+        fn = probes.make_probe(f["name"], iparams, len(f["outs"]), log=log,
                                internal_shape=f["internal_shape"], ret_list=f["ret_list"],
                                fault=(fault or {}).get(f["name"]) if fault else None, tag=tag)
         kw = {}
@@ -162,6 +168,8 @@ def build_funcs(case, log=None, fault=None, tag=None, cache=None, extra=None):
             kw["cache"] = True
         if f.get("bound"):
             kw["bound"] = dict(f["bound"])
+        if f.get("iparams"):
+            kw["renames"] = {ip: p for ip, p in zip(f["iparams"], f["params"])}
         if extra and f["name"] in extra:
             kw.update(extra[f["name"]])
         outn = tuple(f["outs"]) if len(f["outs"]) > 1 else f["outs"][0]
@@ -201,7 +209,7 @@ def oracle(case, inputs=None):
         bnd = f.get("bound") or {}
         if f["mapspec"] is None:
             kw = {p: (bnd[p] if p in bnd else env[p]) for p in f["params"]}
-            t = probes.term(f["name"], f["params"], kw)
+            t = _term(f, kw)
             calls[f["name"]].append(((), t))
             for o, on in enumerate(f["outs"]):
                 base = t if nout == 1 else f"{t}#{o}"
@@ -229,7 +237,7 @@ def oracle(case, inputs=None):
                     kw[p] = env[p]
                 else:
                     kw[p] = env[p][tuple(slice(None) if a is None else ids[a] for a in m)]
-            t = probes.term(f["name"], f["params"], kw)
+            t = _term(f, kw)
             calls[f["name"]].append((tuple(ext_idx), t))
             for o in range(nout):
                 base = t if nout == 1 else f"{t}#{o}"
@@ -241,6 +249,12 @@ def oracle(case, inputs=None):
         for on, arr in zip(f["outs"], outs):
             env[on] = arr
     return env, calls
+
+
+def _term(f, kw):
+    """Term the probe of f returns for pipeline-level keyword arguments kw (the probe sees its own parameter names)."""
+    ip = f.get("iparams") or f["params"]
+    return f["name"] + "(" + ";".join(f"{i}={probes.render(kw[p])}" for i, p in zip(ip, f["params"])) + ")"
 
 
 def call_kwargs(case, env, f, ext_idx):
@@ -301,6 +315,8 @@ def classes(case):
             cl.add("ishape_via_" + str(f.get("ishape_via")))
         if len(f["outs"]) > 1:
             cl.add("tuple_out")
+        if f.get("iparams"):
+            cl.add("renamed_params")
         ext = [a for a in f["out_axes"] if a not in f["internal"]]
         if not ext and any(isinstance(m, list) for m in f["modes"].values()):
             cl.add("all_colon_inputs")
@@ -349,7 +365,7 @@ def nontrivial(case):
 
 def signature(case):
     shapes = {n: [case["sizes"][a] for a in r["axes"]] for n, r in case["roots"].items()}
-    return repr(([f["mapspec"] for f in case["funcs"]], [f["internal_shape"] for f in case["funcs"]], [sorted(f.get("bound", {})) for f in case["funcs"]],
+    return repr(([f["mapspec"] for f in case["funcs"]], [f["internal_shape"] for f in case["funcs"]], [sorted(f.get("bound", {})) for f in case["funcs"]], [bool(f.get("iparams")) for f in case["funcs"]],
                  sorted(shapes.items()), sorted((n, r["kind"]) for n, r in case["roots"].items())))
 
 
